@@ -72,7 +72,8 @@ def path(eng, acc, task):
     except SymDivisionByZero:
         acc.inc('zero_state_paths')
         return
-    except (AssertionError, ValueError, IndexError, KeyError, TypeError, ZeroDivisionError, AttributeError) as e:
+    except Exception as e:
+        reraise_internal(e)
         import traceback
         tb = traceback.extract_tb(e.__traceback__)[-1]
         from harness import c12
